@@ -1950,3 +1950,59 @@ fn c15_tape_usable_after_error_behind_a_long_block() {
     kani::cover!(r2.is_ok() || r2.is_err(), "step after the error returned");
     kani::cover!((r3.is_ok() || r3.is_err()) && (r4.is_ok() || r4.is_err()) && (r5.is_ok() || r5.is_err()), "playing after the error returned");
 }
+
+// @harness
+// @prop C10
+// @tier quick
+// @timeout 900
+// @fn Tap::next_block (skipping the unread rest of the previous block); Tap::next_block_byte; BufferCursor::read; BufferCursor::seek
+// @sym marker bytes of a 130-byte block (longer than the 128-byte read buffer) and the byte of the block that follows it; how many bytes of the first block a request consumed before the next request arrives: 0, 1, 127, 128, 129 or all 130 (literal cases, incl. exactly one buffer)
+// @assert every request consumes exactly the next block: after a request that stopped anywhere inside the long block (also exactly at the 128-byte buffer boundary), the next request finds the FOLLOWING block - its byte, then its end, then the end of the tape
+// @bound 130-byte block + 1-byte block (unwind 135)
+#[kani::proof]
+#[kani::unwind(135)]
+fn c10_partial_request_is_followed_by_the_next_block() {
+    let sel: u8 = kani::any();
+    kani::assume(sel < 6);
+    match sel {
+        0 => partial_then_next(0),
+        1 => partial_then_next(1),
+        2 => partial_then_next(127),
+        3 => partial_then_next(128),
+        4 => partial_then_next(129),
+        _ => partial_then_next(130),
+    }
+}
+
+fn partial_then_next(consumed: usize) {
+    let mut data = [0u8; 140];
+    data[0] = 130;
+    data[1] = 0;
+    let (first, x): (u8, u8) = (kani::any(), kani::any());
+    data[2] = first;
+    data[132] = 1;
+    data[133] = 0;
+    data[134] = x;
+    let mut t = match Tap::from_asset(crate::host::BufferCursor::new(BigBuf { data, len: 135 })) {
+        Ok(t) => t,
+        Err(_) => unreachable!(),
+    };
+    kani::assert(matches!(t.next_block(), Ok(true)), "c10.partial.first_block_found");
+    let mut i = 0;
+    while i < 130 {
+        if i < consumed {
+            let r = t.next_block_byte();
+            if i == 0 {
+                kani::assert(matches!(r, Ok(Some(b)) if b == first), "c10.partial.first_byte");
+            } else {
+                kani::assert(matches!(r, Ok(Some(_))), "c10.partial.byte_available");
+            }
+        }
+        i += 1;
+    }
+    kani::assert(matches!(t.next_block(), Ok(true)), "c10.partial.next_block_found");
+    kani::assert(matches!(t.next_block_byte(), Ok(Some(b)) if b == x), "c10.partial.next_block_is_the_following_block");
+    kani::assert(matches!(t.next_block_byte(), Ok(None)), "c10.partial.next_block_ends");
+    kani::assert(matches!(t.next_block(), Ok(false)), "c10.partial.end_of_tape");
+    kani::cover!(x == 0x5A, "following block delivered");
+}
